@@ -5,10 +5,13 @@ package hx
 
 import (
 	"encoding/json"
+	"errors"
 	"flag"
 	"fmt"
 	"hash/fnv"
+	"io"
 	"os"
+	"os/exec"
 	"path/filepath"
 	"runtime/debug"
 	"sort"
@@ -226,6 +229,12 @@ func (c *Check[C]) replay(raw json.RawMessage) error {
 // Eval runs the oracle, turning a panic into an error (the stack is part of
 // the message so a crashing case is diagnosable from the replay file).
 func (c *Check[C]) Eval(v C) (err error) {
+	if journalPath != "" {
+		if raw, jerr := json.Marshal(v); jerr == nil {
+			b, _ := json.Marshal(replayFile{Property: col.Property, Check: c.Name, Seed: Seed(), Case: raw})
+			os.WriteFile(journalPath, b, 0o644)
+		}
+	}
 	defer func() {
 		if r := recover(); r != nil {
 			err = fmt.Errorf("panic: %v\n%s", r, trimStack(debug.Stack()))
@@ -443,7 +452,12 @@ func replayKnown() (regressions int) {
 			fmt.Fprintf(os.Stderr, "hx: finding %s names unknown check %s\n", f.ID, f.Check)
 			continue
 		}
-		err := ck.replay(f.Case)
+		var err error
+		if contained && !Leaf() {
+			err = ChildEval(f.Check, f.Case, 10*time.Minute)
+		} else {
+			err = ck.replay(f.Case)
+		}
 		switch {
 		case f.Status == "fixed":
 			Class("replay", "fixed_regression_cases")
@@ -534,10 +548,203 @@ func runReplayFile(path string) int {
 		fmt.Fprintf(os.Stderr, "unknown check %q\n", rf.Check)
 		return 3
 	}
+	if contained && !Leaf() {
+		if err := ChildEval(rf.Check, rf.Case, 10*time.Minute); err != nil {
+			fmt.Printf("REPLAY-FAIL check=%s: %v\n", rf.Check, err)
+			return 1
+		}
+		fmt.Printf("REPLAY-PASS check=%s\n", rf.Check)
+		return 0
+	}
 	if err := ck.replay(rf.Case); err != nil {
 		fmt.Printf("REPLAY-FAIL check=%s: %v\n", rf.Check, err)
 		return 1
 	}
 	fmt.Printf("REPLAY-PASS check=%s\n", rf.Check)
 	return 0
+}
+
+// ---------------------------------------------------------------- containment
+//
+// A runtime fatal error (stack overflow, concurrent map write, out of memory)
+// cannot be recovered, and a call that never returns cannot be stopped. Checks
+// whose cases can do either run them in a child process: the test binary
+// re-executes itself on a one-case replay file and the parent reads the verdict
+// from the exit status.
+
+var (
+	contained   bool
+	journalPath string
+)
+
+// Inner reports whether this process runs under the MainContained wrapper.
+func Inner() bool { return os.Getenv("VERIF_INNER") != "" }
+
+// Leaf reports whether this process is a one-case containment child: oracles
+// that contain risky cases must evaluate them in-process here.
+func Leaf() bool { return os.Getenv("VERIF_LEAF") != "" }
+
+// ChildEval evaluates one case of a registered check in a fresh child process.
+// A non-nil error means the oracle failed there, or the child died, or it did
+// not finish within budget.
+func ChildEval(check string, raw json.RawMessage, budget time.Duration) error {
+	dir := os.Getenv("VERIF_WORK")
+	if dir == "" {
+		dir = os.TempDir()
+	}
+	f, err := os.CreateTemp(dir, "child-case-*.json")
+	if err != nil {
+		return fmt.Errorf("HARNESS: %v", err)
+	}
+	defer os.Remove(f.Name())
+	b, _ := json.Marshal(replayFile{Property: col.Property, Check: check, Seed: Seed(), Case: raw})
+	f.Write(b)
+	f.Close()
+	cmd := exec.Command(os.Args[0])
+	cmd.Env = append(os.Environ(), "VERIF_REPLAY_FILE="+f.Name(), "VERIF_INNER=1", "VERIF_LEAF=1", "VERIF_EV_OUT=", "VERIF_JOURNAL=")
+	var out tailBuffer
+	cmd.Stdout, cmd.Stderr = &out, &out
+	if err := cmd.Start(); err != nil {
+		return fmt.Errorf("HARNESS: cannot start child: %v", err)
+	}
+	done := make(chan error, 1)
+	go func() { done <- cmd.Wait() }()
+	select {
+	case err = <-done:
+	case <-time.After(budget):
+		cmd.Process.Kill()
+		<-done
+		return fmt.Errorf("the call did not return within %v (child process killed)", budget)
+	}
+	if err == nil {
+		return nil
+	}
+	text := out.String()
+	if ee, ok := err.(*exec.ExitError); ok && ee.ExitCode() == 1 {
+		if i := strings.Index(text, "REPLAY-FAIL"); i >= 0 {
+			msg := text[i:]
+			if j := strings.Index(msg, ": "); j >= 0 {
+				msg = msg[j+2:]
+			}
+			return errors.New(strings.TrimSpace(msg))
+		}
+	}
+	return fmt.Errorf("the process running the call died (%v): %s", err, fatalSummary(text))
+}
+
+// Contained evaluates v in a child process.
+func (c *Check[C]) Contained(v C, budget time.Duration) error {
+	raw, err := json.Marshal(v)
+	if err != nil {
+		return fmt.Errorf("HARNESS: %v", err)
+	}
+	return ChildEval(c.Name, raw, budget)
+}
+
+type tailBuffer struct {
+	mu  sync.Mutex
+	buf []byte
+}
+
+func (t *tailBuffer) Write(p []byte) (int, error) {
+	t.mu.Lock()
+	defer t.mu.Unlock()
+	t.buf = append(t.buf, p...)
+	if len(t.buf) > 1<<20 {
+		t.buf = append(t.buf[:32<<10:32<<10], t.buf[len(t.buf)-(256<<10):]...)
+	}
+	return len(p), nil
+}
+func (t *tailBuffer) String() string { t.mu.Lock(); defer t.mu.Unlock(); return string(t.buf) }
+
+// fatalSummary extracts the reason line and the first frames of a Go crash dump.
+func fatalSummary(text string) string {
+	lines := strings.Split(text, "\n")
+	for i, l := range lines {
+		if strings.HasPrefix(l, "fatal error:") || strings.HasPrefix(l, "panic:") || strings.HasPrefix(l, "runtime: goroutine stack exceeds") {
+			end := i + 14
+			if end > len(lines) {
+				end = len(lines)
+			}
+			var keep []string
+			for _, k := range lines[i:end] {
+				if len(k) > 200 {
+					k = k[:200] + "…"
+				}
+				keep = append(keep, k)
+			}
+			return strings.Join(keep, "\n")
+		}
+	}
+	if len(text) > 600 {
+		text = text[len(text)-600:]
+	}
+	return text
+}
+
+// MainContained is Main for properties whose cases may kill the process: the
+// whole run happens in a child with a journal of the case being evaluated; if
+// the child dies, the journaled case is re-run alone in a fresh child and, when
+// it fails again, reported as the violation.
+func MainContained(m *testing.M, property string) {
+	contained = true
+	if Inner() || os.Getenv("VERIF_REPLAY_FILE") != "" || os.Getenv("VERIF_MKCASE_CHECK") != "" {
+		journalPath = os.Getenv("VERIF_JOURNAL")
+		Main(m, property)
+		return
+	}
+	col.Property = property
+	dir := os.Getenv("VERIF_WORK")
+	if dir == "" {
+		dir = os.TempDir()
+	}
+	journal := filepath.Join(dir, fmt.Sprintf("journal-%s-%d-%d.json", property, Seed(), Shard()))
+	os.Remove(journal)
+	cmd := exec.Command(os.Args[0], os.Args[1:]...)
+	cmd.Env = append(os.Environ(), "VERIF_INNER=1", "VERIF_JOURNAL="+journal)
+	var out tailBuffer
+	cmd.Stdout, cmd.Stderr = io.MultiWriter(os.Stdout, &out), io.MultiWriter(os.Stderr, &out)
+	err := cmd.Run()
+	code := 0
+	if err != nil {
+		code = -1
+		if ee, ok := err.(*exec.ExitError); ok {
+			code = ee.ExitCode()
+		}
+	}
+	defer os.Remove(journal)
+	if code == 0 || code == 1 {
+		os.Exit(code)
+	}
+	b, rerr := os.ReadFile(journal)
+	var rf replayFile
+	if rerr != nil || json.Unmarshal(b, &rf) != nil || rf.Check == "" {
+		fmt.Printf("INCONCLUSIVE: the check process died (%v) outside any case\n", err)
+		os.Exit(2)
+	}
+	cerr := ChildEval(rf.Check, rf.Case, 10*time.Minute)
+	if cerr == nil {
+		fmt.Printf("INCONCLUSIVE: the check process died (%v) during a case that passes when run alone: %s\n", err, fatalSummary(out.String()))
+		os.Exit(2)
+	}
+	path := failRaw(rf.Check, rf.Case, cerr)
+	fmt.Printf("ABORT: %s violated (replay %s): %v\n", rf.Check, path, cerr)
+	flush()
+	os.Exit(1)
+}
+
+func failRaw(check string, raw json.RawMessage, err error) string {
+	dir := os.Getenv("VERIF_REPLAY_DIR")
+	if dir == "" {
+		dir = filepath.Join(os.TempDir(), "verif-replays")
+	}
+	os.MkdirAll(dir, 0o755)
+	rf := replayFile{Property: col.Property, Check: check, Message: err.Error(), Seed: Seed(), Case: raw}
+	b, _ := json.MarshalIndent(rf, "", " ")
+	path := filepath.Join(dir, fmt.Sprintf("%s-seed%d-shard%d.json", check, Seed(), Shard()))
+	os.WriteFile(path, b, 0o644)
+	col.mu.Lock()
+	col.Violations = append(col.Violations, violation{Check: check, Replay: path, Message: err.Error()})
+	col.mu.Unlock()
+	return path
 }
